@@ -588,9 +588,11 @@ def check_table_get(ctx):
                   fm.name, site(fm, e), "only an empty filter answers no without consulting the policy",
                   "filter answers no under %s" % fmt_atoms(atoms))
     ones = [e for b, i, e in fm.events("ret") if const_val(e.get("x")) == 1]
-    ctx.check(len(ones) == 1, "T2-filter-fail-open", "default-match", fm.name, fm.loc, "malformed filter data is a potential match",
-              "fail-open return changed")
     bm = [e for b, i, e in fm.events("ret") if "ldb_bloom_match" in _macs(e.get("x")) or "policy->match" in key(e.get("x"))]
+    other = [e for b, i, e in fm.events("ret") if const_val(e.get("x")) not in (0, 1) and e not in bm]
+    ctx.check(len(ones) >= 1 and not other, "T2-filter-fail-open", "default-match", fm.name, fm.loc,
+              "every answer is the policy's, the empty-filter no, or the fail-open yes (%d sites)" % len(ones),
+              "fail-open return changed: %d constant-yes returns, other returns %s" % (len(ones), [key(e.get("x")) for e in other]))
     ctx.check(len(bm) == 1, "T2-filter-fail-open", "policy-answer", fm.name, fm.loc, "the policy's answer is returned", "policy call changed")
 
 
